@@ -11,6 +11,7 @@ item    = (inlines, sublist_or_None)                 rows = [[cell]]; cell = ("c
 Inline  = ("t", word) | ("i", inlines) | ("b", inlines) | ("tag", name, inlines) | ("link", target, caption_inlines_or_None)
         | ("ext", url_word, caption_inlines_or_None) | ("ref", inlines) | ("refp", [inlines, ...])   (a reference of several paragraphs)
         | ("refn", name, inlines) | ("refuse", name)      (a named reference and a later use of it)
+        | ("nslink", prefix, target_word, caption_inlines)   (a link into another namespace: [[Prefix:Word|caption]])
 """
 import itertools
 
@@ -49,6 +50,7 @@ def library():
         add("p-" + tg, (lambda tg: lambda k: ("p", [T(k), ("tag", tg, [T(k)])]))(tg))
     add("p-link", lambda k: ("p", [T(k), ("link", k(), None), T(k)]))
     add("p-link-caption", lambda k: ("p", [("link", k(), [T(k)])]))
+    add("p-link-ns", lambda k: ("p", [T(k), ("nslink", "Talk", k(), [T(k)]), ("nslink", "Project", k(), [T(k)]), ("nslink", "Wikipedia", k(), [T(k)])]))
     add("p-link-styled-caption", lambda k: ("p", [("link", k(), [("i", [T(k)])])]))
     add("p-ext-named", lambda k: ("p", [T(k), ("ext", k(), [T(k)])]))
     add("p-ref", lambda k: ("p", [T(k), ("ref", [T(k)])]))
@@ -183,6 +185,8 @@ def ser_inline(i, v):
         if i[2] is None:
             return "[[%s]]" % tgt
         return "[[%s|%s]]" % (tgt, ser_inlines(i[2], v))
+    if k == "nslink":
+        return "[[%s:%s|%s]]" % (i[1], i[2].capitalize(), ser_inlines(i[3], v))
     if k == "ext":
         if i[2] is None:
             return "http://example.org/%s" % i[1]
@@ -294,6 +298,8 @@ def denote(doc):
                     out.append((i[1], chain + ("ArticleLink:" + tgt, "@target")))
                 else:
                     inl(i[2], chain + ("ArticleLink:" + tgt,))
+            elif k == "nslink":
+                inl(i[3], chain + ("NamespaceLink:%s:%s" % (i[1], i[2].capitalize()),))
             elif k == "ext":
                 url = "http://example.org/" + i[1]
                 if i[2] is None:
